@@ -19,7 +19,7 @@ import itertools
 from dataclasses import dataclass, field
 
 from core.guards import Formula, conds_formula
-from core.loader import ancestors, norm, parent
+from core.loader import ancestors, norm, own_nodes, parent
 
 from .c11_lib import COMPS, Def, Fn, alias_names, copy_node, substitute
 from .common import conds as conds_at
@@ -38,8 +38,9 @@ _fresh = itertools.count(1)
 class Binder:
     target: ast.expr  # Name (after normalisation) or Tuple
     source: ast.expr  # expression iterated
-    loop: ast.AST | None = None  # For statement / comprehension it came from
+    loop: ast.AST | None = None  # For statement / comprehension it came from (possibly inside a generator helper)
     root: bool = False
+    site: ast.AST | None = None  # the call in the analysed function through which a helper's loop is run
 
     @property
     def names(self) -> list[str]:
@@ -482,12 +483,98 @@ class Collections:
                 out = self._describe(e.func.value, depth - 1, busy)
                 out.removals.append(Contribution(elt=None, node=e, kind="remove", how="intersection", value=e.args[0] if e.args else None))
                 return out
+            # generator helper: its `yield`s are the elements
+            g = self._describe_generator(e, depth)
+            if g is not None:
+                return g
             # straight-line helper returning a collection expression
             if parent(e) is not None:
                 s = fn.summarise(e, stmt_of(e), 6, set())
                 if s is not None and isinstance(s, (*COMPS, ast.List, ast.Tuple, ast.Set, ast.Dict)):
                     return self._describe_copy(s)
         return self._root(e)
+
+    def _describe_generator(self, call: ast.Call, depth: int) -> Desc | None:
+        """`helper(args)` where helper is a private / local generator function: one contribution per `yield`, expressed over
+        the caller's arguments."""
+        fn = self.fn
+        callee = fn.callee(call)
+        if callee is None or isinstance(callee.node, ast.Lambda) or depth <= 1:
+            return None
+        ys = [n for n in own_nodes(callee.node) if isinstance(n, (ast.Yield, ast.YieldFrom))]
+        if not ys:
+            return None
+        private = callee.name.startswith("_") and not callee.name.startswith("__")
+        if not (private or callee.outer is not None or callee.module is self.fi.module):
+            return None
+        a = callee.node.args
+        if a.vararg or a.kwarg or any(isinstance(x, ast.Starred) for x in call.args) or any(k.arg is None for k in call.keywords):
+            return None
+        pos = [p.arg for p in [*a.posonlyargs, *a.args]]
+        params = pos + [p.arg for p in a.kwonlyargs]
+        bind: dict[str, ast.expr] = {}
+        if callee.cls is not None and callee.outer is None and not callee.is_staticmethod and pos:
+            first = pos.pop(0)
+            bind[first] = call.func.value if isinstance(call.func, ast.Attribute) and not callee.is_classmethod else ast.Name(id=callee.cls.name, ctx=ast.Load())
+        if len(call.args) > len(pos):
+            return None
+        for p_, x in zip(pos, call.args):
+            bind[p_] = x
+        for k in call.keywords:
+            if k.arg not in params:
+                return None
+            bind[k.arg] = k.value
+        pos_all = [*a.posonlyargs, *a.args]
+        for p_, d_ in zip(pos_all[len(pos_all) - len(a.defaults):], a.defaults):
+            bind.setdefault(p_.arg, d_)
+        if any(p_ not in bind for p_ in params):
+            return None
+        sub_fn = Fn(fn.repo, callee)
+        sub = Collections(sub_fn)
+        inner = Desc()
+        for y in ys:
+            loops = sub._loops_between(y, [])
+            if any(isinstance(l, ast.While) for l in loops):
+                return None
+            local, ctx = sub.local_conds(y, loops[0] if loops else None)
+            if not loops:
+                local, ctx = sub_fn.conds_all(y), []
+            if isinstance(y, ast.YieldFrom):
+                d0 = sub._describe(y.value, depth - 1, set())
+                for c in d0.contribs:
+                    inner.contribs.append(Contribution(c.elt, c.value, [Binder(l.target, l.iter, l) for l in loops] + c.binders, sub.xc(local) + c.conds, ctx, y, "add", "yield:" + c.how))
+                inner.unknown += d0.unknown
+                inner.removals += d0.removals
+            elif y.value is not None:
+                inner.contribs.append(Contribution(sub.x(y.value), None, [Binder(l.target, l.iter, l) for l in loops], sub.xc(local), ctx, y, "add", "yield"))
+        inner = sub.normalise(inner)
+        if inner.removals:
+            return None
+        out = Desc(unknown=list(inner.unknown))
+        for c in inner.contribs:
+            # fresh names for the helper's binders; parameters become the caller's argument expressions
+            ren: dict[str, ast.expr] = {}
+            binders = []
+            for b in c.binders:
+                t = copy_node(b.target, callee)
+                for nm in ast.walk(t):
+                    if isinstance(nm, ast.Name):
+                        fresh = f"{nm.id.split('__')[0]}__b{next(_fresh)}"
+                        ren[nm.id] = ast.Name(id=fresh, ctx=ast.Load())
+                        nm.id = fresh
+                src = b.source
+                if isinstance(src, ast.Name) and src.id in bind and src.id not in ren:
+                    src2 = bind[src.id]  # the caller's own expression: composed further by the caller
+                else:
+                    src2 = substitute(copy_node(src, callee), {**{k: copy_node(v, self.fi) for k, v in bind.items()}, **ren})
+                binders.append(Binder(t, src2, b.loop if b.loop is not None else call, False, call))
+            env = {**{k: (copy_node(v, self.fi) if parent(v) is not None or not hasattr(v, "_orig") else v) for k, v in bind.items()}, **ren}
+
+            def sb(x):
+                return substitute(copy_node(x, callee), env) if x is not None else None
+
+            out.contribs.append(Contribution(sb(c.elt), sb(c.value), binders, [(sb(x), p_) for x, p_ in c.conds], [], call, "add", "generator"))
+        return out
 
     def _describe_copy(self, e: ast.AST) -> Desc:
         """Description of a detached (expanded / summarised) collection expression."""
@@ -650,15 +737,15 @@ class Collections:
             src = b.source
             # wrappers around the source
             if isinstance(src, ast.Call) and _call_name(src) in COPY_CALLS and len(src.args) == 1:
-                c.binders[idx] = Binder(b.target, src.args[0], b.loop)
+                c.binders[idx] = Binder(b.target, src.args[0], b.loop, False, b.site)
                 work.insert(0, c)
                 continue
             if isinstance(src, ast.Call) and (_call_name(src) == "product" or self.fn.lib_name(src.func) == "itertools.product") and isinstance(b.target, (ast.Tuple, ast.List)) and len(b.target.elts) == len(src.args) and not src.keywords:
-                c.binders[idx: idx + 1] = [Binder(t, s, b.loop) for t, s in zip(b.target.elts, src.args)]
+                c.binders[idx: idx + 1] = [Binder(t, s, b.loop, False, b.site) for t, s in zip(b.target.elts, src.args)]
                 work.insert(0, c)
                 continue
             if isinstance(src, ast.Call) and _call_name(src) == "enumerate" and isinstance(b.target, (ast.Tuple, ast.List)) and len(b.target.elts) == 2 and src.args:
-                c.binders[idx] = Binder(b.target.elts[1], src.args[0], b.loop)
+                c.binders[idx] = Binder(b.target.elts[1], src.args[0], b.loop, False, b.site)
                 work.insert(0, c)
                 continue
             sub = self._describe_copy(src)
@@ -667,13 +754,13 @@ class Collections:
                 out.removals += sub.removals
             if len(sub.contribs) == 1 and sub.contribs[0].how == "root":
                 # the source is a root itself
-                c.binders[idx] = Binder(b.target, sub.contribs[0].binders[0].source, b.loop, True)
+                c.binders[idx] = Binder(b.target, sub.contribs[0].binders[0].source, b.loop, True, b.site)
                 work.insert(0, c)
                 continue
             for ci in sub.contribs:
                 if ci.how == "root":
                     rb = ci.binders[0]
-                    nc = Contribution(c.elt, c.value, c.binders[:idx] + [Binder(b.target, rb.source, b.loop, True)] + c.binders[idx + 1:], list(c.conds), c.context, c.node, c.kind, c.how, c.acc, c.nlocal)
+                    nc = Contribution(c.elt, c.value, c.binders[:idx] + [Binder(b.target, rb.source, b.loop, True, b.site)] + c.binders[idx + 1:], list(c.conds), c.context, c.node, c.kind, c.how, c.acc, c.nlocal)
                     work.insert(0, nc)
                     continue
                 env = self._match_target(b.target, ci)
@@ -690,7 +777,7 @@ class Collections:
                             fresh = f"{nm.id.split('__')[0]}__b{next(_fresh)}"
                             ren[nm.id] = ast.Name(id=fresh, ctx=ast.Load())
                             nm.id = fresh
-                    inner_binders.append(Binder(tnew, ib.source, ib.loop, ib.root))
+                    inner_binders.append(Binder(tnew, ib.source, ib.loop, ib.root, ib.site or b.site))
                 # sources of later inner binders may mention earlier inner binder names
                 for k, ib in enumerate(inner_binders):
                     if k and any(isinstance(x, ast.Name) and x.id in ren for x in ast.walk(ib.source)):
@@ -704,7 +791,7 @@ class Collections:
                 nc = Contribution(
                     sb(c.elt),
                     sb(c.value),
-                    c.binders[:idx] + inner_binders + [Binder(bb.target, sb(bb.source) if not bb.root else bb.source, bb.loop, bb.root) for bb in c.binders[idx + 1:]],
+                    c.binders[:idx] + inner_binders + [Binder(bb.target, sb(bb.source) if not bb.root else bb.source, bb.loop, bb.root, bb.site) for bb in c.binders[idx + 1:]],
                     inner_conds + [(sb(x), p) for x, p in c.conds],
                     c.context,
                     c.node,
